@@ -90,11 +90,11 @@ def race_collect(ctx, spec, tier="quick", env_more=None):
     for f in glob.glob(logp + ".*"):
         os.remove(f)
     cases, gores, model, bad = stress(ctx, binp, tier, "race", spec.get("shards", 8), 1500,
-                                      env_extra=dict({"GORACE": f"log_path={logp} exitcode=0 history_size=3"}, **(env_more or {})))
+                                      env_extra=dict({"GORACE": f"log_path={logp} exitcode=0 history_size=3", "VERIF_RACE_LOG": logp}, **(env_more or {})))
     reports = []
     for f in sorted(glob.glob(logp + ".*")):
-        txt = open(f, errors="replace").read()
-        reports += [r for r in txt.split("==================") if "DATA RACE" in r]
+        txt = open(f, errors="replace").read(8 << 20)  # a flooded log is not read to its end
+        reports += [r for r in txt.split("==================") if "DATA RACE" in r][:2000]
     dirs = spec.get("race_dirs", RACE_DIRS)
     hits = [r for r in reports if dirs.search(r)]
     cov = ctx.coverage
